@@ -173,7 +173,7 @@ def _work(task):
     prop, layer = _PROP, _LAYERS[li]
     st = {"layer": li, "generated": len(chunk), "dups": 0, "states": 0, "execs": 0, "ops": 0,
           "outcomes": set(), "nontrivial": 0, "fails": [], "samples": [], "skipped": 0,
-          "harness_errors": []}
+          "harness_errors": [], "notes": {}}
     for case in chunk:
         try:
             if layer.rep is not None and not layer.rep(case):
@@ -202,6 +202,8 @@ def _work(task):
                     order.set_policy(None)
                 st["execs"] += 1
                 st["ops"] += ctx.ops
+                for nk, nv in ctx.notes.items():
+                    st["notes"][nk] = st["notes"].get(nk, 0) + nv
                 for clause, detail in ctx.fails:
                     if clause not in per_clause:
                         per_clause[clause] = {"clause": clause, "case": case, "layer": layer.name,
@@ -268,6 +270,7 @@ def explore(prop, tier, seed, only_policies=None, only_layers=None, budget_s=Non
             "skipped": 0, "nontrivial": 0, "complete": False,
             "policies": (l.policies if l.policies is not None else default_pol)} for l in layers]
     outcomes, fails, samples, herr = set(), [], [], []
+    notes = {}
     capped = False
     ctx = multiprocessing.get_context("fork")
     if NPROC > 1:
@@ -283,6 +286,8 @@ def explore(prop, tier, seed, only_policies=None, only_layers=None, budget_s=Non
             for k in ("generated", "dups", "states", "execs", "ops", "skipped", "nontrivial"):
                 a[k] += st[k]
             outcomes |= st["outcomes"]
+            for nk, nv in st["notes"].items():
+                notes[nk] = notes.get(nk, 0) + nv
             fails.extend(st["fails"])
             herr.extend(st["harness_errors"])
             if len(samples) < 6:
@@ -303,5 +308,5 @@ def explore(prop, tier, seed, only_policies=None, only_layers=None, budget_s=Non
     lidx = {l.name: i for i, l in enumerate(layers)}
     fails.sort(key=lambda f: (lidx.get(f["layer"], 99), len(json.dumps(f["case"], default=str)), json.dumps(f["case"], default=str), f["clause"]))
     return {"layers": agg, "outcomes": len(outcomes), "fails": fails, "samples": samples,
-            "harness_errors": herr, "capped": capped, "wall_s": time.time() - t0,
+            "harness_errors": herr, "capped": capped, "notes": notes, "wall_s": time.time() - t0,
             "order_sites": None}
